@@ -3,7 +3,6 @@
 use tv::util::*;
 use tv::{cmp, conc, ctor, faults, hist, overflow, shadow, thin, tk, uninit};
 
-
 fn main() {
     let args = Args::parse();
     quiet_panics();
@@ -26,7 +25,9 @@ fn main() {
         #[cfg(feature = "full")]
         "serde" => engine_serde(&args),
         "ovchild" => overflow::child(args.u64("entry", 0) as usize, args.u64("start", 1) as usize),
-        "allocchild" => faults::alloc_child(args.u64("site", 0) as usize, args.u64("nth", 1) as i64),
+        "allocchild" => {
+            faults::alloc_child(args.u64("site", 0) as usize, args.u64("nth", 1) as i64)
+        }
         other => {
             eprintln!("unknown engine {:?}", other);
             2
@@ -59,7 +60,13 @@ fn engine_hist(args: &Args) -> i32 {
         st.counts.bump(&format!("shape.{}", shape));
         if let Err((vs, trace)) = r {
             for v in &vs {
-                emit_violation(v, "hist", seed, &format!("k={} shape={} ops={}", k, shape, ops), &trace);
+                emit_violation(
+                    v,
+                    "hist",
+                    seed,
+                    &format!("k={} shape={} ops={}", k, shape, ops),
+                    &trace,
+                );
             }
             nviol += 1;
             if nviol >= 5 {
@@ -93,7 +100,9 @@ fn engine_thin(args: &Args) -> i32 {
     let light = args.has("light");
     let mut st = hist::Stats::new();
     let mut nviol = 0;
-    let shapes = ["T8/T8", "Z/T8", "T32/T1", "T1/T32", "TB/TB", "T64/T8", "T8/T64", "Z16/T1"];
+    let shapes = [
+        "T8/T8", "Z/T8", "T32/T1", "T1/T32", "TB/TB", "T64/T8", "T8/T64", "Z16/T1",
+    ];
     for k in first..first + n {
         let hseed = seed.wrapping_mul(0x1000_0000).wrapping_add(k);
         let shape = shapes[(k % shapes.len() as u64) as usize];
@@ -110,7 +119,13 @@ fn engine_thin(args: &Args) -> i32 {
         st.counts.bump(&format!("thin.shape.{}", shape));
         if let Err((vs, trace)) = r {
             for v in &vs {
-                emit_violation(v, "thin", seed, &format!("k={} shape={} ops={}", k, shape, ops), &trace);
+                emit_violation(
+                    v,
+                    "thin",
+                    seed,
+                    &format!("k={} shape={} ops={}", k, shape, ops),
+                    &trace,
+                );
             }
             nviol += 1;
             if nviol >= 5 {
@@ -144,8 +159,16 @@ fn engine_conc(args: &Args) -> i32 {
     let mut st = conc::CStats::new();
     let mut nviol = 0;
     for k in first..first + n {
-        let cseed = seed.wrapping_mul(0x1000_0000).wrapping_add(k).wrapping_mul(0x9E37_79B9_7F4A_7C15) >> 8;
-        let which = if scen == "all" { ["clonedrop", "uniqpoll", "cow", "unwraprace"][(k % 4) as usize].to_string() } else { scen.clone() };
+        let cseed = seed
+            .wrapping_mul(0x1000_0000)
+            .wrapping_add(k)
+            .wrapping_mul(0x9E37_79B9_7F4A_7C15)
+            >> 8;
+        let which = if scen == "all" {
+            ["clonedrop", "uniqpoll", "cow", "unwraprace"][(k % 4) as usize].to_string()
+        } else {
+            scen.clone()
+        };
         let nthreads = 2 + ((k / 4) % 3) as usize;
         let r = match which.as_str() {
             "clonedrop" => match (k / 4) % 3 {
@@ -153,8 +176,26 @@ fn engine_conc(args: &Args) -> i32 {
                 1 => conc::clonedrop(cseed, &conc::make_w2, nthreads, len, &mut st),
                 _ => conc::clonedrop(cseed, &conc::make_w2_fat, nthreads, len, &mut st),
             },
-            "uniqpoll" => conc::uniqpoll(cseed, if scen == "all" { (k / 4) as usize } else { k as usize }, 1 + ((k / 32) % 2) as usize, &mut st),
-            "cow" => conc::cow(cseed, if scen == "all" { (k / 4) as usize } else { k as usize }, 1 + ((k / 12) % 2) as usize, &mut st),
+            "uniqpoll" => conc::uniqpoll(
+                cseed,
+                if scen == "all" {
+                    (k / 4) as usize
+                } else {
+                    k as usize
+                },
+                1 + ((k / 32) % 2) as usize,
+                &mut st,
+            ),
+            "cow" => conc::cow(
+                cseed,
+                if scen == "all" {
+                    (k / 4) as usize
+                } else {
+                    k as usize
+                },
+                1 + ((k / 12) % 2) as usize,
+                &mut st,
+            ),
             _ => conc::unwraprace(cseed, 2 + ((k / 4) % 2) as usize, &mut st),
         };
         st.counts.bump("conc.executions");
@@ -163,7 +204,16 @@ fn engine_conc(args: &Args) -> i32 {
                 eprintln!("harness problem: {}", v.msg);
                 return 3;
             }
-            emit_violation(&v, "conc", seed, &format!("k={} scen={} threads={} len={} delay={}", k, which, nthreads, len, delay), &trace);
+            emit_violation(
+                &v,
+                "conc",
+                seed,
+                &format!(
+                    "k={} scen={} threads={} len={} delay={}",
+                    k, which, nthreads, len, delay
+                ),
+                &trace,
+            );
             nviol += 1;
             if nviol >= 3 {
                 break;
@@ -185,7 +235,14 @@ fn engine_conc(args: &Args) -> i32 {
     }
 }
 
-fn ctor_dispatch(pair: usize, c: usize, n: usize, regime: u8, cap: usize, st: &mut ctor::CtStats) -> R {
+fn ctor_dispatch(
+    pair: usize,
+    c: usize,
+    n: usize,
+    regime: u8,
+    cap: usize,
+    st: &mut ctor::CtStats,
+) -> R {
     match pair {
         0 => ctor::case::<tk::T8, tk::T8>(c, n, regime, cap, st),
         1 => ctor::case::<tk::Z, tk::T8>(c, n, regime, cap, st),
@@ -227,27 +284,67 @@ fn engine_ctor(args: &Args) -> i32 {
                     continue;
                 }
                 let combos: Vec<(u8, usize)> = if full && matches!(c, 0 | 1 | 2 | 4 | 6) {
-                    (0..5u8).flat_map(|r| (0..4usize).map(move |k| (r, k))).collect()
+                    (0..5u8)
+                        .flat_map(|r| (0..4usize).map(move |k| (r, k)))
+                        .collect()
                 } else {
-                    (0..rot).map(|k| (((idx + seed + k) % 5) as u8, ((idx / 5 + seed + k * 3) % 4) as usize)).collect()
+                    (0..rot)
+                        .map(|k| {
+                            (
+                                ((idx + seed + k) % 5) as u8,
+                                ((idx / 5 + seed + k * 3) % 4) as usize,
+                            )
+                        })
+                        .collect()
                 };
                 for (regime, cap) in combos {
                     let r = ctor_dispatch(pair, c, n, regime, cap, &mut st);
-                    run(r, format!("pair={} c={} n={} regime={} cap={}", pair, c, n, regime, cap), &mut nviol);
+                    run(
+                        r,
+                        format!(
+                            "pair={} c={} n={} regime={} cap={}",
+                            pair, c, n, regime, cap
+                        ),
+                        &mut nviol,
+                    );
                 }
             }
         }
     }
     if shard == 0 {
         for c in 0..5 {
-            run(ctor::sized_case::<tk::T8>(c, &mut st), format!("sized T8 c={}", c), &mut nviol);
-            run(ctor::sized_case::<tk::T32>(c, &mut st), format!("sized T32 c={}", c), &mut nviol);
-            run(ctor::sized_case::<tk::Z>(c, &mut st), format!("sized Z c={}", c), &mut nviol);
-            run(ctor::sized_case::<tk::TB>(c, &mut st), format!("sized TB c={}", c), &mut nviol);
-            run(ctor::sized_case::<tk::T64>(c, &mut st), format!("sized T64 c={}", c), &mut nviol);
+            run(
+                ctor::sized_case::<tk::T8>(c, &mut st),
+                format!("sized T8 c={}", c),
+                &mut nviol,
+            );
+            run(
+                ctor::sized_case::<tk::T32>(c, &mut st),
+                format!("sized T32 c={}", c),
+                &mut nviol,
+            );
+            run(
+                ctor::sized_case::<tk::Z>(c, &mut st),
+                format!("sized Z c={}", c),
+                &mut nviol,
+            );
+            run(
+                ctor::sized_case::<tk::TB>(c, &mut st),
+                format!("sized TB c={}", c),
+                &mut nviol,
+            );
+            run(
+                ctor::sized_case::<tk::T64>(c, &mut st),
+                format!("sized T64 c={}", c),
+                &mut nviol,
+            );
         }
         for &n in lens.iter().filter(|n| **n <= maxlen) {
-            run(ctor::copy_cases(n, &mut st), format!("copy n={}", n), &mut nviol);
+            run(
+                ctor::copy_cases(n, &mut st),
+                format!("copy n={}", n),
+                &mut nviol,
+            );
         }
     }
     println!(
@@ -268,9 +365,19 @@ fn engine_ctor(args: &Args) -> i32 {
 
 fn engine_faults(args: &Args) -> i32 {
     let seed = args.u64("seed", 1);
-    let sizes: Vec<usize> = if args.has("big") { vec![0, 1, 2, 5, 17] } else if args.has("small") { vec![0, 2] } else { vec![0, 1, 3] };
+    let sizes: Vec<usize> = if args.has("big") {
+        vec![0, 1, 2, 5, 17]
+    } else if args.has("small") {
+        vec![0, 2]
+    } else {
+        vec![0, 1, 3]
+    };
     let part = args.str("part", "all");
-    let only = if args.has("only") { Some(args.u64("only", 0) as usize) } else { None };
+    let only = if args.has("only") {
+        Some(args.u64("only", 0) as usize)
+    } else {
+        None
+    };
     let sel = |i: usize| only.map(|o| o == i).unwrap_or(true);
     let mut st = faults::FStats::new();
     let mut nviol = 0;
@@ -290,7 +397,11 @@ fn engine_faults(args: &Args) -> i32 {
     if part == "all" || part == "iter" {
         for site in (0..faults::ITER_SITES).filter(|s| sel(*s)) {
             for &n in &sizes {
-                run(faults::iter_panics(site, n, &mut st), format!("iter site={} n={}", site, n), &mut nviol);
+                run(
+                    faults::iter_panics(site, n, &mut st),
+                    format!("iter site={} n={}", site, n),
+                    &mut nviol,
+                );
             }
             // lying iterators: every (reported, actual) with actual 0..=6, |diff| <= 2
             for actual in 0..=6usize {
@@ -299,10 +410,22 @@ fn engine_faults(args: &Args) -> i32 {
                     if rep < 0 {
                         continue;
                     }
-                    run(faults::iter_lies(site, actual, vec![rep as usize], &mut st), format!("lie site={} actual={} rep={}", site, actual, rep), &mut nviol);
+                    run(
+                        faults::iter_lies(site, actual, vec![rep as usize], &mut st),
+                        format!("lie site={} actual={} rep={}", site, actual, rep),
+                        &mut nviol,
+                    );
                 }
                 // answers that change between calls
-                for (a, b) in [(0i64, 1i64), (1, 0), (0, -1), (-1, 0), (1, -1), (2, 0), (0, 2)] {
+                for (a, b) in [
+                    (0i64, 1i64),
+                    (1, 0),
+                    (0, -1),
+                    (-1, 0),
+                    (1, -1),
+                    (2, 0),
+                    (0, 2),
+                ] {
                     let (ra, rb) = (actual as i64 + a, actual as i64 + b);
                     if ra < 0 || rb < 0 {
                         continue;
@@ -313,8 +436,16 @@ fn engine_faults(args: &Args) -> i32 {
                         &mut nviol,
                     );
                     run(
-                        faults::iter_lies(site, actual, vec![ra as usize, rb as usize, actual], &mut st),
-                        format!("lie site={} actual={} rep=[{},{},truth]", site, actual, ra, rb),
+                        faults::iter_lies(
+                            site,
+                            actual,
+                            vec![ra as usize, rb as usize, actual],
+                            &mut st,
+                        ),
+                        format!(
+                            "lie site={} actual={} rep=[{},{},truth]",
+                            site, actual, ra, rb
+                        ),
                         &mut nviol,
                     );
                 }
@@ -324,33 +455,54 @@ fn engine_faults(args: &Args) -> i32 {
     if part == "all" || part == "clone" {
         for site in (0..faults::CLONE_SITES).filter(|s| sel(*s)) {
             for co in 0..faults::CO_KINDS {
-                run(faults::clone_panics(site, co, &mut st), format!("clone site={} co={}", site, co), &mut nviol);
+                run(
+                    faults::clone_panics(site, co, &mut st),
+                    format!("clone site={} co={}", site, co),
+                    &mut nviol,
+                );
             }
         }
     }
     if part == "all" || part == "closure" {
         for site in (0..faults::CLOSURE_SITES).filter(|s| sel(*s % 3)) {
             for shared in [false, true] {
-                run(faults::closure_panics(site, shared, &mut st), format!("closure site={} shared={}", site, shared), &mut nviol);
+                run(
+                    faults::closure_panics(site, shared, &mut st),
+                    format!("closure site={} shared={}", site, shared),
+                    &mut nviol,
+                );
             }
         }
     }
     if part == "all" || part == "cmp" {
         for h in (0..faults::CMP_HANDLES).filter(|s| sel(*s)) {
             for op in 0..faults::CMP_OPS {
-                run(faults::cmp_panics(h, op, &mut st), format!("cmp h={} op={}", h, op), &mut nviol);
+                run(
+                    faults::cmp_panics(h, op, &mut st),
+                    format!("cmp h={} op={}", h, op),
+                    &mut nviol,
+                );
             }
         }
     }
     if (part == "all" || part == "alloc") && shadow::active() {
         for site in 0..faults::ALLOC_SITES {
-            if !run(faults::alloc_failures(site, &mut st), format!("alloc site={}", site), &mut nviol) {
+            if !run(
+                faults::alloc_failures(site, &mut st),
+                format!("alloc site={}", site),
+                &mut nviol,
+            ) {
                 return 3;
             }
         }
     }
-    let total = st.counts.get("faults.iter.runs") + st.counts.get("faults.lie.runs") + st.counts.get("faults.clone.runs") + st.counts.get("faults.closure.runs") + st.counts.get("faults.cmp.runs")
-        + st.counts.get("faults.alloc.aborted-via-alloc-error") + st.counts.get("faults.alloc.no-more-allocations");
+    let total = st.counts.get("faults.iter.runs")
+        + st.counts.get("faults.lie.runs")
+        + st.counts.get("faults.clone.runs")
+        + st.counts.get("faults.closure.runs")
+        + st.counts.get("faults.cmp.runs")
+        + st.counts.get("faults.alloc.aborted-via-alloc-error")
+        + st.counts.get("faults.alloc.no-more-allocations");
     st.counts.add("faults.injected_runs", total);
     println!(
         "@@{{\"t\":\"stats\",\"engine\":\"faults\",\"counts\":{},\"sets\":{{\"fault_cases\":{}}},\"shadow\":{},\"sample\":{}}}",
@@ -453,8 +605,19 @@ fn engine_uninit(args: &Args) -> i32 {
             let masks: Vec<u64> = if len <= 4 {
                 (0..(1u64 << len)).collect()
             } else {
-                let all = if len >= 64 { u64::MAX } else { (1u64 << len) - 1 };
-                vec![0, all, rng.next() & all, rng.next() & all, 1, 1 << (len - 1)]
+                let all = if len >= 64 {
+                    u64::MAX
+                } else {
+                    (1u64 << len) - 1
+                };
+                vec![
+                    0,
+                    all,
+                    rng.next() & all,
+                    rng.next() & all,
+                    1,
+                    1 << (len - 1),
+                ]
             };
             for path in 0..uninit::SLICE_PATHS {
                 idx += 1;
@@ -462,10 +625,18 @@ fn engine_uninit(args: &Args) -> i32 {
                     continue;
                 }
                 if path >= 3 {
-                    run(uninit_dispatch(pair, len, u64::MAX, path, &mut st), format!("pair={} len={} path={}", pair, len, path), &mut nviol);
+                    run(
+                        uninit_dispatch(pair, len, u64::MAX, path, &mut st),
+                        format!("pair={} len={} path={}", pair, len, path),
+                        &mut nviol,
+                    );
                 } else {
                     for &m in &masks {
-                        run(uninit_dispatch(pair, len, m, path, &mut st), format!("pair={} len={} mask={:#b} path={}", pair, len, m, path), &mut nviol);
+                        run(
+                            uninit_dispatch(pair, len, m, path, &mut st),
+                            format!("pair={} len={} mask={:#b} path={}", pair, len, m, path),
+                            &mut nviol,
+                        );
                     }
                 }
             }
@@ -473,12 +644,36 @@ fn engine_uninit(args: &Args) -> i32 {
     }
     if shard == 0 {
         for path in 0..uninit::SIZED_PATHS {
-            run(uninit::sized_case::<tk::T8>(path, &mut st), format!("sized T8 path={}", path), &mut nviol);
-            run(uninit::sized_case::<tk::T32>(path, &mut st), format!("sized T32 path={}", path), &mut nviol);
-            run(uninit::sized_case::<tk::TB>(path, &mut st), format!("sized TB path={}", path), &mut nviol);
-            run(uninit::sized_case::<tk::T1>(path, &mut st), format!("sized T1 path={}", path), &mut nviol);
-            run(uninit::sized_case::<tk::Z>(path, &mut st), format!("sized Z path={}", path), &mut nviol);
-            run(uninit::sized_case::<tk::T64>(path, &mut st), format!("sized T64 path={}", path), &mut nviol);
+            run(
+                uninit::sized_case::<tk::T8>(path, &mut st),
+                format!("sized T8 path={}", path),
+                &mut nviol,
+            );
+            run(
+                uninit::sized_case::<tk::T32>(path, &mut st),
+                format!("sized T32 path={}", path),
+                &mut nviol,
+            );
+            run(
+                uninit::sized_case::<tk::TB>(path, &mut st),
+                format!("sized TB path={}", path),
+                &mut nviol,
+            );
+            run(
+                uninit::sized_case::<tk::T1>(path, &mut st),
+                format!("sized T1 path={}", path),
+                &mut nviol,
+            );
+            run(
+                uninit::sized_case::<tk::Z>(path, &mut st),
+                format!("sized Z path={}", path),
+                &mut nviol,
+            );
+            run(
+                uninit::sized_case::<tk::T64>(path, &mut st),
+                format!("sized T64 path={}", path),
+                &mut nviol,
+            );
         }
     }
     println!(
@@ -529,7 +724,7 @@ fn engine_serde(args: &Args) -> i32 {
     let seed = args.u64("seed", 1);
     let n = args.u64("n", 20) as usize;
     let mut st = tv::serde_eng::SdStats::new();
-    let viols = tv::serde_eng::run(seed, n, &mut st);
+    let viols = tv::serde_eng::run(seed, n, &args.str("part", "all"), &mut st);
     for v in &viols {
         if v.oracle == "harness" {
             eprintln!("harness problem: {}", v.msg);
